@@ -93,10 +93,12 @@ def seeded_variants(pid):
     """Confirmed sub-agent changes kept under /verif/seeded/<PID>-<k>/patch.diff (each must make the check fire)."""
     d = os.path.join(core.VERIF, "seeded")
     out = []
-    und = {}
+    und, aerr = {}, {}
     if os.path.exists(os.path.join(d, "UNDETECTED.json")):
         import json
-        und = json.load(open(os.path.join(d, "UNDETECTED.json"))).get("undetected", {})
+        _decl = json.load(open(os.path.join(d, "UNDETECTED.json")))
+        und = _decl.get("undetected", {})
+        aerr = _decl.get("analysis_error", {})
     if os.path.isdir(d):
         for name in sorted(os.listdir(d)):
             if name.startswith(pid + "-") and os.path.exists(os.path.join(d, name, "patch.diff")):
@@ -104,6 +106,9 @@ def seeded_variants(pid):
                 if name in und:
                     v["expect"] = "silent"
                     v["name"] += " (declared undetected)"
+                if name in aerr:
+                    v["expect"] = "error"
+                    v["name"] += " (declared: analysis error, exit 2)"
                 out.append(v)
     return out
 
@@ -152,16 +157,16 @@ def run_all(pid, module, repo="/repo", verbose=False, jobs=None, seeded=True):
             outs = []
             for v, r in zip(variants, pending):
                 try:
-                    outs.append(r.get(timeout=240))
+                    outs.append(r.get(timeout=600))
                 except multiprocessing.TimeoutError:
-                    outs.append(("error", None, "no result within 240 s (worker died or hung)"))
+                    outs.append(("error", None, "no result within 600 s (worker died or hung)"))
                 except Exception as e:
                     outs.append(("error", None, "%s: %s" % (type(e).__name__, e)))
     else:
         outs = [run_variant(pid, module, v, repo) for v in variants]
     for v, (status, rc, out) in zip(variants, outs):
         want = v.get("expect", "fire")
-        ok = (status == "fired" and want == "fire") or (status == "silent" and want == "silent") or status == "skipped"
+        ok = (status == "fired" and want == "fire") or (status == "silent" and want == "silent") or status == "skipped" or (status == "error" and want == "error")
         if not ok and status == "fired" and pid in v.get("unresolved_for", ()):
             want, ok = "silent (declared unresolved false alarm)", True
         named = True
